@@ -87,9 +87,56 @@ def _base_of_local(b, l, depth=0):
     return (inner[0], inner[1], inner[2] + f)
 
 
+def normaliser_summaries(facts):
+    """local functions that normalise one of their (reference) parameters on every path: path -> set of param indexes.
+    Lets `x.normalize()` be moved into a helper without the rule losing sight of it."""
+    cached = getattr(facts, "_r1_norm", None)
+    if cached is not None:
+        return cached
+    summ = {}
+    facts._r1_norm = summ
+    for _round in range(3):
+        changed = False
+        for b in facts.bodies:
+            if b.kind == "Closure":
+                continue
+            for k in range(1, b.arg_count + 1):
+                if k in summ.get(b.path, set()):
+                    continue
+                ty = b.local_ty(k)
+                if "BigUint" not in ty and "BigInt" not in ty:
+                    continue
+                blocks = []
+                for i, t in b.calls():
+                    if i not in b.live_blocks() or not t["args"]:
+                        continue
+                    nm = callee_name(t)
+                    cp = callee(t)
+                    is_norm = nm in ("normalize", "normalized") or 1 in summ.get(cp, set()) and True
+                    idxs = {1} if nm in ("normalize", "normalized") else summ.get(cp, set())
+                    for j in idxs:
+                        if j - 1 < len(t["args"]):
+                            pl = core.op_place(t["args"][j - 1])
+                            if pl is None:
+                                continue
+                            base = _base_of_local(b, pl["local"])
+                            if base and base[0] == "param" and base[1] == k and not base[2] and not [e for e in pl["proj"] if e["k"] == "field"]:
+                                blocks.append(i)
+                if not blocks:
+                    continue
+                r = b.reachable(0, without_blocks=blocks)
+                if not any(x in r for x in b.return_blocks()):
+                    summ.setdefault(b.path, set()).add(k)
+                    changed = True
+        if not changed:
+            break
+    return summ
+
+
 def analyse_body(facts, b):
     """returns list of problems [(root, write description, line)] for body b"""
     live = b.live_blocks()
+    summ = normaliser_summaries(facts)
     # 1. seeds: locals holding `&mut <root>.data...`
     derived = {}  # local -> root
     for i, si, s in b.stmts():
@@ -151,8 +198,9 @@ def analyse_body(facts, b):
             continue
         nm = callee_name(t)
         # normalisers: called on a pointer to the root itself (not to its data) or by value
-        if nm in NORMALISERS:
-            for a in t["args"][:1]:
+        sidx = summ.get(callee(t), set()) if (callee_fn(t) or {}).get("local") else set()
+        if nm in NORMALISERS or sidx:
+            for a in ([t["args"][j - 1] for j in sorted(sidx) if j - 1 < len(t["args"])] if (sidx and nm not in NORMALISERS) else t["args"][:1]):
                 pl = core.op_place(a)
                 if pl is None:
                     continue
